@@ -212,7 +212,7 @@ func (s ansSetup) build(w *world) {
 		if s.logoutURI[n] {
 			cfg.DefaultLogoutRedirectURI = "https://web.example.com/signed-out"
 		}
-		oo := append([]op.Option{op.WithLogger(quiet)}, ownAlgOpts()...)
+		oo := append([]op.Option{op.WithLogger(w.logr)}, ownAlgOpts()...)
 		if s.customEps[n] {
 			oo = append(oo, op.WithCustomAuthEndpoint(w.customEps["auth"]), op.WithCustomTokenEndpoint(w.customEps["tok"]),
 				op.WithCustomDeviceAuthorizationEndpoint(w.customEps["dev"]), op.WithCustomEndSessionEndpoint(w.customEps["bye"]))
@@ -229,7 +229,7 @@ func (s ansSetup) build(w *world) {
 		}
 		w.inst[i] = p
 		srv := op.NewLegacyServer(p, *op.DefaultEndpoints)
-		w.inst[i+2] = &legacyInst{srv: srv, handler: op.RegisterLegacyServer(srv, op.AuthorizeCallbackHandler(p), op.WithFallbackLogger(quiet))}
+		w.inst[i+2] = &legacyInst{srv: srv, handler: op.RegisterLegacyServer(srv, op.AuthorizeCallbackHandler(p), op.WithFallbackLogger(w.logr))}
 	}
 }
 
